@@ -414,3 +414,60 @@ def r7_projective_split(ck, P):
                     ck.ok(R, where + ' is unreachable when w != 1.0')
     if n == 0:
         ck.incomplete(R, 'no gradient function with a dividing and a non-dividing pixel loop found')
+
+
+def r8_position_advances(ck, P):
+    """T-IND for the floating-point scan position of the gradient painters"""
+    from .factors import _loops_of
+    R = ck.rule('C13-R8', 'in every gradient pixel loop each loop-carried position component (floating point rx, ry, rz, t ... or fixed point advanced by a unit-vector step) that is advanced by a loop-invariant step on some path is advanced by it on every path to the back edge: pixels skipped because the mask is zero still move the scan position', floor=6)
+    n = 0
+    for un, u in P.units.items():
+        if 'gradient' not in un:
+            continue
+        L = _loops_of(u)
+        for fn, loops in L.items():
+            f = u.functions.get(fn)
+            if f is None:
+                continue
+            for lp in loops:
+                blocks = set(lp['blocks'])
+                for x in f.blocks[lp['header']].insts:
+                    if x.op != 'phi' or x.ty not in ('double', 'float', 'i64', 'i32'):
+                        continue
+                    isint = x.ty.startswith('i')
+                    inside = [a for a, bb in zip(x.a, x.d['bb']) if bb in blocks]
+                    if not inside:
+                        continue
+
+                    def classify(o, seen):
+                        """'adv' = phi + invariant, 'same' = the header phi unchanged, 'mix' = both reachable, 'other'"""
+                        if o == ['v', x.i]:
+                            return {'same'}
+                        if o[0] != 'v' or o[1] in seen:
+                            return set()
+                        seen.add(o[1])
+                        y = f.by_id[o[1]]
+                        if y.op in ('fadd', 'fsub') and any(q == ['v', x.i] for q in y.a):
+                            return {'adv'}
+                        if isint and y.op in ('add', 'sub') and any(q == ['v', x.i] for q in y.a) and not any(q[0] == 'c' for q in y.a):
+                            return {'adv'}          # a fixed-point coordinate advanced by a (non-constant) unit step; plain counters are not positions
+                        if y.op == 'phi' and y.bb.id in blocks:
+                            r = set()
+                            for q in y.a:
+                                r |= classify(q, seen)
+                            return r
+                        return {'other'}
+
+                    kinds = set()
+                    for o in inside:
+                        kinds |= classify(o, set())
+                    if 'adv' not in kinds:
+                        continue
+                    n += 1; ck.saw(f)
+                    where = '%s loop %d: %s' % (f.name, lp['header'], x.dv or 'value %d' % x.i)
+                    if 'same' in kinds:
+                        ck.violation(R, f.name, 'position component %s not advanced on every path' % (x.dv or x.i), '%s advances %s only on some paths of its pixel loop (loop at block %d): after a pixel that is skipped (zero mask) the rest of the scanline is painted with the position of a pixel further left' % (f.name, x.dv or 'a position component', lp['header']), x.loc())
+                    else:
+                        ck.ok(R, where)
+    if n == 0:
+        ck.incomplete(R, 'no loop-carried floating-point position found in the gradient painters')
